@@ -41,6 +41,7 @@ def baseLost (pre post : List Order) : Int := buyReceived pre post - sellPaid pr
 /-- **the dust clause, as it holds of the code** (see the header) -/
 def monQuoteDustAt (pre post : List Order) (q lo hi : Int) : Bool :=
   q == buyPaid pre post - sellReceived pre post && decide (0 ≤ q) && decide (0 ≤ baseLost pre post) &&
+  decide (0 ≤ fillCount pre post) &&
   decide (lo * baseLost pre post ≤ q * Dec.P) &&
   decide (q * Dec.P ≤ hi * baseLost pre post + fillCount pre post * (Dec.P - 1))
 
